@@ -31,6 +31,9 @@ DEFAULT_W = dict(
     shadow=0.03,         # one key provided in a scope and in an ancestor, decorated on the path, consumed below
     vizgroup=0.0,        # a value group with failing members, consumed and drawn with that Invoke's error
     loc=0.03,            # Provide carries dig.LocationForPC
+    staleundo=0.01,      # an operation rejected before anything is parsed, right after a success, then a Provide that leans on that success
+    deferleak=0.01,      # (deferred verification) an unverified cycle below a verified scope, a rejected Provide above, an Invoke below
+    softpair=0.0,        # two adjacent soft groups followed by a field whose multi-result constructor feeds the second
     embed=0.04,          # an object embeds further structs (plain ones, or dig.In / dig.Out indirectly)
     obj_result=0.30,     # a result is a dig.Out object
     group=0.30,          # use of value groups
@@ -870,6 +873,127 @@ class Gen:
             c2 = self.new_fn([self.single_in(half[0], half[1])], [])
             self.ops.append({"op": "invoke", "scope": sib, "fn": c2, "info": False})
 
+    # ---- "stale undo": an operation rejected before anything is parsed must undo nothing of what came before
+    def op_stale_undo(self):
+        r = self.r
+        s0 = r.randrange(0, self.nscopes)
+        (kt, kn) = self.fresh_key()
+        self.plain_provide(s0, [], kt, kn, export=r.random() < 0.1)
+        self.resolvable.append((s0, kt, kn))
+        # the rejected call: a non-function (or an ordinary rejection), on the same scope, an ancestor or a descendant
+        around = [x for x in range(self.nscopes) if s0 in self.anc(x) or x in self.anc(s0)]
+        for _ in range(r.choice([1, 1, 2])):
+            sc = s0 if r.random() < 0.6 else r.choice(around)
+            c = r.random()
+            if c < 0.75:
+                bad = self.new_fn([], [], nonfunc=r.choice(["nil", "int", "ptr", "struct", "nilfunc", "nilfunc1"]))
+            else:
+                bad = self.malformed_fn()
+            kind = r.choice(["decorate", "decorate", "provide", "invoke"])
+            if kind == "decorate":
+                self.ops.append({"op": "decorate", "scope": sc, "fn": bad, "cb": False, "info": r.random() < 0.3})
+            elif kind == "provide":
+                self.ops.append({"op": "provide", "scope": sc, "fn": bad, "name": "", "group": "", "as": [], "export": False,
+                                 "cb": False, "info": r.random() < 0.3, "opts": []})
+            else:
+                self.ops.append({"op": "invoke", "scope": sc, "fn": bad, "info": False})
+        # what leans on the success before it: a constructor that needs it (same holder), then its consumer
+        (tt, tn) = self.fresh_key()
+        self.plain_provide(s0, [self.single_in(kt, kn)], tt, tn)
+        if r.random() < 0.4:
+            (vt, vn) = self.fresh_key()
+            self.plain_provide(s0, [self.single_in(tt, tn)], vt, vn)
+            tt, tn = vt, vn
+        cons = self.new_fn([self.single_in(tt, tn)], [])
+        below = [x for x in range(self.nscopes) if s0 in self.anc(x)]
+        isc = r.choice(below)
+        self.invokers.append((cons, isc))
+        self.ops.append({"op": "invoke", "scope": isc, "fn": cons, "info": False})
+
+    # ---- "defer leak": what one scope knows about its own graph must not be copied onto another
+    def op_defer_leak(self):
+        r = self.r
+        top = r.randrange(0, self.nscopes)
+        if self.nscopes < self.w["max_scopes"] + 2:
+            self.ops.append({"op": "scope", "parent": top})
+            self.parents.append(top)
+            low = self.nscopes
+            self.nscopes += 1
+        else:
+            kids = [x for x in range(self.nscopes) if x != top and top in self.anc(x)]
+            if not kids:
+                return
+            low = r.choice(kids)
+        # a two-constructor cycle only `low` sees (accepted under deferred verification, the second half rejected otherwise)
+        (at, an) = self.fresh_key(); self.provided.append((low, at, an))
+        (bt, bn) = self.fresh_key(); self.provided.append((low, bt, bn))
+        self.plain_provide(low, [self.single_in(bt, bn)], at, an)
+        self.plain_provide(low, [self.single_in(at, an)], bt, bn)
+        # the scope above is verified by an Invoke of its own
+        f0 = self.new_fn([], [])
+        self.ops.append({"op": "invoke", "scope": top, "fn": f0, "info": False})
+        # a Provide above is rejected (a non-function, a duplicate, a malformed function)
+        c = r.random()
+        if c < 0.4:
+            bad = self.new_fn([], [], nonfunc=r.choice(["nil", "int", "nilfunc"]))
+            self.ops.append({"op": "provide", "scope": top, "fn": bad, "name": "", "group": "", "as": [], "export": False,
+                             "cb": False, "info": False, "opts": []})
+        elif c < 0.8:
+            (dt, dn) = self.fresh_key()
+            self.plain_provide(top, [], dt, dn)
+            self.plain_provide(top if r.random() < 0.7 else low, [], dt, dn, export=True)   # the same key again: rejected
+        else:
+            bad = self.malformed_fn()
+            self.ops.append({"op": "provide", "scope": top, "fn": bad, "name": "", "group": "", "as": [], "export": False,
+                             "cb": False, "info": False, "opts": []})
+        # an Invoke below that touches nothing of the cycle
+        self.ops.append({"op": "invoke", "scope": low, "fn": f0 if r.random() < 0.5 else self.new_fn([], []), "info": False})
+        if r.random() < 0.4:
+            cons = self.new_fn([self.single_in(at, an)], [])
+            self.ops.append({"op": "invoke", "scope": low, "fn": cons, "info": False})
+
+    # ---- "soft pair": soft groups are built after every other field, however many of them stand next to each other
+    def op_soft_pair(self):
+        r = self.r
+        sc = r.randrange(0, self.nscopes)
+        e1, e2 = r.choice(PT[:4]), r.choice(PT[:4])
+        g1, g2 = r.choice([("g", "h"), ("h", "g"), ("g", "g")])
+        if g1 == g2:
+            e2 = e1
+        (vt, vn) = self.fresh_key()
+        while vt in (e1, e2):
+            (vt, vn) = self.fresh_key()
+        self.provided.append((sc, vt, vn))
+
+        def provide(scope, ins, outs, opts=None):
+            fid = self.new_fn(ins, outs)
+            o = {"name": "", "group": "", "as": [], "opts": []}
+            o.update(opts or {})
+            self.ops.append({"op": "provide", "scope": scope, "fn": fid, "name": o["name"], "group": o["group"], "as": o["as"],
+                             "export": False, "cb": self.p("cb"), "info": False, "opts": sorted(set(o["opts"]))})
+            self.record_results(scope, outs, o, False, deps_ok=not ins)
+        # plain feeders of both groups (some of them), and the multi-result constructor: the value and a member of the second group
+        anc = self.anc(sc)
+        for (e, g) in ((e1, g1), (e2, g2)):
+            for _ in range(r.choice([0, 1, 1, 2])):
+                provide(r.choice(anc), [], [u(e)], {"group": g, "opts": ["group"]})
+        vtags = {"name": vn} if vn else {}
+        provide(r.choice(anc), [], [self.st([self.out_field(), self.field("V", u(vt), vtags), self.field("M", u(e2), {"group": g2})])])
+        softs = [self.field("S1", u(self.slice_of(e1)), {"group": g1 + ",soft"}), self.field("S2", u(self.slice_of(e2)), {"group": g2 + ",soft"})]
+        if r.random() < 0.3:
+            softs.append(self.field("S3", u(self.slice_of(e1)), {"group": g1 + ",soft"}))
+        tail = [self.field("V", u(vt), vtags)]
+        if r.random() < 0.3:
+            tail.append(self.field("H", u(self.slice_of(e1)), {"group": g1}))
+        head = [self.field("H0", u(self.slice_of(e2)), {"group": g2})] if r.random() < 0.15 else []
+        fs = [self.in_field()] + head + softs + tail
+        cons = self.new_fn([self.st(fs)], [])
+        below = [x for x in range(self.nscopes) if sc in self.anc(x)]
+        isc = r.choice(below)
+        self.invokers.append((cons, isc))
+        for _ in range(r.choice([1, 1, 2])):
+            self.ops.append({"op": "invoke", "scope": isc, "fn": cons, "info": False})
+
     # ---- shadowing: one key provided in a scope and in an ancestor, decorated somewhere on the path, consumed below
     def op_shadow_web(self):
         """the same key K provided in a scope L and in an ancestor A of L (the nearer one possibly unbuildable: a
@@ -1229,6 +1353,15 @@ class Gen:
                 continue
             if r.random() < self.w["deepcycle"]:
                 self.op_deep_cycle()
+                continue
+            if r.random() < self.w["staleundo"]:
+                self.op_stale_undo()
+                continue
+            if r.random() < self.w["deferleak"]:
+                self.op_defer_leak()
+                continue
+            if r.random() < self.w["softpair"]:
+                self.op_soft_pair()
                 continue
             if r.random() < self.w["retry"]:
                 self.op_retry_web()
